@@ -1,7 +1,7 @@
 SPECIFICATION Spec
 CONSTANT MaxR = 3
 CONSTANT Kinds = {"ext", "bout", "berr"}
-CONSTANT Positions = {"only", "first", "last"}
+CONSTANT Positions = {"only", "first", "middle", "last"}
 INVARIANT Emit
 INVARIANT Conservation
 INVARIANT NoRedirNoTouch
